@@ -104,6 +104,9 @@ func (c *Ctx) OverBudget() bool {
 	return false
 }
 
+// CapHit records that some internal cap was reached (the run is reported as not exhaustive).
+func (c *Ctx) CapHit() { c.capHit.Store(true) }
+
 // Eval counts evaluated cases.
 func (c *Ctx) Eval(n int64) { c.evals.Add(n) }
 
